@@ -48,13 +48,23 @@ MUTANTS = [
     ("string-find-right-misses-start", "lib/chibi/string.scm", "        (cond ((string-cursor<? i2 start) start)\n              ((pred (string-cursor-ref str i2)) i)", "        (cond ((string-cursor<=? i2 start) start)\n              ((pred (string-cursor-ref str i2)) i)"),
     ("string-fill!-default-end-in-bytes", "lib/init-7.scm", "        (end (if (and (pair? o) (pair? (cdr o))) (cadr o) (string-length str))))\n    (let lp ((i (- end 1)))\n      (if (>= i start) (begin (string-set! str i ch)",
      "        (end (if (and (pair? o) (pair? (cdr o))) (cadr o) (string-size str))))\n    (let lp ((i (- end 1)))\n      (if (>= i start) (begin (string-set! str i ch)"),
+    # round 4: re-created seeded change C12-b3 (bounded backward scan stops one byte early: 4-byte characters only)
+    ("prev-bounded-scan-off-by-one", "sexp.c", "  while ((*--p)>>6 == 2)\n    ;\n  return (char*)p;", "  int n = 0;\n  while (((*--p)>>6 == 2) && (++n < 3))\n    ;\n  return (char*)p;"),
+    # round 4: ill-formed input on ports
+    ("undo-fix-peek-pushes-exception", "vm.c", "      if (!sexp_exceptionp(tmp1))\n        sexp_push_utf8_char(ctx, sexp_unbox_character(tmp1), _ARG1);", "      sexp_push_utf8_char(ctx, sexp_unbox_character(tmp1), _ARG1);"),
+    ("undo-fix-truncated-decoded-from-eof", "eval.c", "      if (c == EOF)\n        return sexp_user_exception(ctx, NULL, \"read-char: truncated utf8 sequence\", sexp_make_fixnum(lead));\n", ""),
+    ("truncated-only-checked-on-last-byte", "eval.c", "      if (c == EOF)\n        return sexp_user_exception(ctx, NULL, \"read-char: truncated utf8 sequence\"", "      if (c == EOF && n == 1)\n        return sexp_user_exception(ctx, NULL, \"read-char: truncated utf8 sequence\""),
+    ("invalid-lead-f8-accepted", "eval.c", "    if ((i < 0xC0) || (i > 0xF7)) {", "    if ((i < 0xC0) || (i > 0xFB)) {"),
+    ("peek-error-unreads-lead-byte", "vm.c", "      if (!sexp_exceptionp(tmp1))\n        sexp_push_utf8_char(ctx, sexp_unbox_character(tmp1), _ARG1);", "      if (!sexp_exceptionp(tmp1))\n        sexp_push_utf8_char(ctx, sexp_unbox_character(tmp1), _ARG1);\n      else if (i < 0xC0)\n        sexp_push_char(ctx, i, _ARG1);"),
     ("concat-length", "sexp.c", "    len = sexp_string_size(sexp_car(ls));\n    memcpy(p, sexp_string_data(sexp_car(ls)), len);", "    len = sexp_string_length(sexp_car(ls));\n    memcpy(p, sexp_string_data(sexp_car(ls)), len);"),
 ]
 
 
 def run_check():
     t0 = time.time()
-    r = subprocess.run(["./check", "C12", "--tier", "quick"], cwd=ROOT, capture_output=True, text=True, timeout=1800)
+    env = dict(os.environ)
+    env.setdefault("VERIF_EVIDENCE_DIR", os.path.join(env.get("VERIF_SCRATCH", "/var/tmp/verif-C12"), "evidence"))     # never into /verif/evidence
+    r = subprocess.run(["./check", "C12", "--tier", "quick"], cwd=ROOT, env=env, capture_output=True, text=True, timeout=1800)
     lines = [l for l in r.stdout.split("\n") if l.startswith(("VIOLATION", "KNOWN", "C12 "))]
     sigs = []
     for l in lines:
